@@ -10,6 +10,7 @@ misbehave.
 """
 import errno
 import io
+import threading
 
 from .refmodels import cnfref
 
@@ -112,6 +113,10 @@ class SimSubprocess:
             def writable(self):
                 return True
 
+            def close(self):
+                super().close()
+                self.proc._stdin_closed.set()
+
             def write(self, b):
                 if self.closed:
                     raise ValueError("write to closed file")
@@ -132,6 +137,10 @@ class SimSubprocess:
                 if self.limit is not None:
                     accept = max(1, min(len(b), self.limit - len(self.buf)))
                 self.buf += b[:accept]
+                if getattr(self.proc, "rec", None) is not None:
+                    # what the parent has sent so far, whenever the peer
+                    # happens to look at it
+                    self.proc.rec["stdin"] = len(self.buf)
                 return accept
 
         class _PipeOut(io.RawIOBase):
@@ -151,12 +160,22 @@ class SimSubprocess:
                 if self.data is None:
                     si = self.proc.stdin
                     if si is not None and not si.closed and \
-                            self.proc.spec_convention == "stdin_stdout":
-                        # a solver reads its standard input up to EOF: the
-                        # parent that waits for the answer first waits for
-                        # ever
-                        self.proc.rec["deadlock"] = True
-                        outer.ctx.fault("answer_read_before_stdin_closed")
+                            self.proc.spec_convention == "stdin_stdout" and \
+                            getattr(self.proc, "kind", None) == "solve":
+                        # a solver reads its standard input up to EOF and
+                        # answers afterwards
+                        if threading.get_ident() == self.proc._owner:
+                            # the thread that feeds the solver waits for
+                            # the answer first: both sides wait for ever
+                            self.proc.rec["deadlock"] = True
+                            outer.ctx.fault(
+                                "answer_read_before_stdin_closed")
+                        else:
+                            # a reader thread: it blocks until the feeding
+                            # thread has closed the pipe
+                            outer.ctx.fault("answer_drained_by_a_thread")
+                            if not self.proc._stdin_closed.wait(20):
+                                self.proc.rec["deadlock"] = True
                     self.data = self.proc._raw_result()[self.which] or b""
                 n = min(len(b), len(self.data) - self.pos)
                 b[:n] = self.data[self.pos:self.pos + n]
@@ -179,6 +198,9 @@ class SimSubprocess:
                 self._enc = encoding or "utf-8"
                 self._errors = errors or "strict"
                 self._done = None
+                self._lock = threading.RLock()
+                self._owner = threading.get_ident()
+                self._stdin_closed = threading.Event()
                 self._stderr_to = stderr
                 self.spec_convention = None
                 self.stdin = self.stdout = self.stderr = None
@@ -205,6 +227,10 @@ class SimSubprocess:
 
             def _raw_result(self, input=None):
                 """(stdout bytes, stderr bytes or None) of the peer."""
+                with self._lock:
+                    return self._raw_result_locked(input)
+
+            def _raw_result_locked(self, input=None):
                 if self._done is None:
                     if input is None and self._rawin is not None:
                         try:
@@ -414,7 +440,10 @@ class SimSubprocess:
         spec = p.spec
         conv = spec["convention"]
         rec = p.rec
-        rec["stdin"] = None if input is None else len(input)
+        if input is not None:
+            rec["stdin"] = len(input)
+        else:
+            rec.setdefault("stdin", None)
         args = p.args[1:]
         files = [a for a in args if not a.startswith("-")
                  and a not in spec.get("optargs", ())]
